@@ -232,6 +232,16 @@ func runC03(rc *runCtx) *RunResult {
 		}
 		// the shared-vertex rule on the quadruples the history visits: invariant under reversing
 		// either edge, and when exactly one vertex is shared exactly one of VC(ab,cd), VC(cd,ab) holds
+		if (a == b || c == d) && (a == c || a == d || b == c || b == d) {
+			// documented: VC(a,a,c,d) == VC(a,b,c,c) == false
+			rc.inc("probe_degenerate_edge_on_shared_vertex", 1)
+			if s2.VertexCrossing(a, b, c, d) {
+				res.Viol = &Violation{Kind: "vertex-crossing-rule", Site: "VertexCrossing",
+					Detail: fmt.Sprintf("step%d: a degenerate edge never counts as a crossing, but VertexCrossing(a,b,c,d) is true (a=%v b=%v c=%v d=%v)", i, a, b, c, d)}
+				res.Sig, res.Nontrivial = sig, true
+				return res
+			}
+		}
 		if a != b && c != d && (a == c || a == d || b == c || b == d) {
 			vc := s2.VertexCrossing(a, b, c, d)
 			if s2.VertexCrossing(b, a, c, d) != vc || s2.VertexCrossing(a, b, d, c) != vc || s2.VertexCrossing(b, a, d, c) != vc {
